@@ -127,7 +127,7 @@ func (p *Prog) runBounded(c *BoundedCheck) *BoundedResult {
 		res.Err = err
 		return res
 	}
-	alphabet := []byte{' ', '\n', '\r', '\f', '[', '"', 'E', 'q', '1', ',', '{'}
+	alphabet := []byte{' ', '\t', '\n', '\r', '\f', '[', '"', 'E', 'q', '1', ',', '{'}
 	var rec func(prefix []byte)
 	res.OK = true
 	rec = func(prefix []byte) {
